@@ -15,7 +15,7 @@ Scope decisions ("Corrections": what the statement does and does not demand)
  * "Every format code the receiving item definition allows": a receiver model `allows(recv, item)` written from the
    definitions decides scope.  ANYVALUE's type list originally omitted JIS8 while Dynamic.decode hands every nested
    list to Array(ANYVALUE), so a J item inside a list received through an unrestricted Dynamic was rejected; that was
-   repaired (fix b2bc7e2: ANYVALUE allows JIS8) and J items are now in scope everywhere the definition allows them.
+   repaired (fix 7df7543: ANYVALUE allows JIS8) and J items are now in scope everywhere the definition allows them.
  * count limits: leaf receivers are used with count -1 or a count >= the number of elements (count 0 is avoided: the
    text/binary classes read it as "unlimited", the numeric ones as "empty only").  Records need exactly as many
    elements as fields.  Arrays are used without count (Array.decode never looks at it).
@@ -84,7 +84,7 @@ ASSUMPTIONS = [
 BUDGET_S = {"quick": 110, "thorough": 1200}
 GRACE_S = 180
 
-NOJ = list(gi.SCALARS)  # historical name: J is allowed under ANYVALUE since fix b2bc7e2
+NOJ = list(gi.SCALARS)  # historical name: J is allowed under ANYVALUE since fix 7df7543
 FORMAT_BYTES = [(c << 2) | n for c in sorted(e5.NAMES) for n in (1, 1, 2, 3, 0)]
 
 DYN_ALL = {"k": "dyn", "types": [], "direct": True}
@@ -99,7 +99,7 @@ ARRAY_ANY = {"k": "array", "of": {"k": "any"}}
 
 def _any_ok(it):
     f, p = it
-    return f != "L" or all(_any_ok(s) for s in p)  # ANYVALUE lists every type incl. JIS8 (since fix b2bc7e2)
+    return f != "L" or all(_any_ok(s) for s in p)  # ANYVALUE lists every type incl. JIS8 (since fix 7df7543)
 
 
 def allows(recv, it):
